@@ -448,6 +448,10 @@ func c05(c *Ctx) {
 		}
 	}
 
+	// ---- R6 the mocker-level Return/Returns hand the caller's values to the When
+	r.Floor("C05.R6", 4)
+	checkValuesForwarded(p, r, "C05.R6", map[string]bool{"Return": true, "Returns": true}, "results")
+
 	// ---- R4 feeding the right list
 	when := p.NamedType("", "When")
 	mi := matcherIface(p)
@@ -607,4 +611,68 @@ func blockKind(b *ssa.BasicBlock, adds []ssa.Instruction) string {
 		conds = append(conds, s)
 	}
 	return "path under " + strings.Join(conds, "∧")
+}
+
+// checkValuesForwarded: a mocker's exported configuration method that takes the caller's values as its one variadic
+// []interface{} parameter and answers with the *When hands those values on — on every way to a return it has passed a call
+// into the When machinery (a method of *When, or a function that builds a *When) with an argument derived from that
+// parameter. names selects the methods; methods of When itself are the machinery and are not obligations.
+func checkValuesForwarded(p *Prog, r *Report, rule string, names map[string]bool, what string) int {
+	when := p.NamedType("", "When")
+	if when == nil {
+		r.Und(rule, "When", "", "type When not found")
+		return 0
+	}
+	isWhenPtr := func(t types.Type) bool {
+		pt, ok := t.(*types.Pointer)
+		return ok && pt.Elem() == types.Type(when)
+	}
+	n := 0
+	for _, f := range p.FuncsIn("") {
+		if f.Object() == nil || !f.Object().Exported() || f.Signature.Recv() == nil || !names[f.Name()] || f.Blocks == nil {
+			continue
+		}
+		if isWhenPtr(f.Signature.Recv().Type()) || !f.Signature.Variadic() || f.Signature.Params().Len() != 1 || f.Signature.Results().Len() != 1 || !isWhenPtr(f.Signature.Results().At(0).Type()) {
+			continue
+		}
+		vp := f.Params[len(f.Params)-1]
+		isVP := func(v ssa.Value) bool { return v == ssa.Value(vp) }
+		isFeed := func(j ssa.Instruction) bool {
+			ci, ok := j.(ssa.CallInstruction)
+			if !ok {
+				return false
+			}
+			cal := staticCallee(ci.Common())
+			if cal == nil || relPkg(cal) != "" {
+				return false
+			}
+			machinery := cal.Signature.Recv() != nil && isWhenPtr(cal.Signature.Recv().Type())
+			for k := 0; k < cal.Signature.Results().Len(); k++ {
+				if isWhenPtr(cal.Signature.Results().At(k).Type()) {
+					machinery = true
+				}
+			}
+			if !machinery {
+				return false
+			}
+			for _, a := range ci.Common().Args {
+				if dependsOn(a, isVP) {
+					return true
+				}
+			}
+			return false
+		}
+		n++
+		okAll := true
+		at := f.Pos()
+		for _, ret := range returnsOf(f) {
+			if !passedBefore(f, ret, isFeed, nil) {
+				okAll = false
+				at = posOf(ret)
+			}
+		}
+		r.Check(okAll, rule, what+" of "+shortName(f)+" reach the When", p.Pos(at), "every return has passed a call into the When machinery carrying the caller's values",
+			"the method can return without handing the caller's "+what+" to the When: the stub is created (and the function patched) but answers with something other than what was configured")
+	}
+	return n
 }
